@@ -130,6 +130,12 @@ def row_for(kind, mod, n=0):
         return (mod, "P.meth", '{"x": %s}' % cls_json(mod[:-1], "C"), t, None)
     if kind == "nowraps":
         return (mod, "unwrapped", '{"a": %s}' % t, t, None)
+    if kind == "dunder_removed":
+        # the class no longer defines the method; the name still resolves, through inheritance, to a C-implemented
+        # slot wrapper of `object` - which is not a Python function
+        return (mod, "P.__init__", '{"x": %s}' % t, None, None)
+    if kind == "dunder_removed_2":
+        return (mod, "P.__repr__", "{}", STR, None)
     raise ValueError(kind)
 
 
@@ -137,7 +143,7 @@ DECODABLE = {"valid", "valid2", "valid_method", "renamed_param", "nowraps"}
 KINDS = ["valid", "valid2", "valid_method", "renamed_param", "function_removed", "arg_class_removed", "return_class_removed",
          "yield_class_removed", "class_module_removed", "local_scope", "now_nonfunction", "now_class", "now_settable_property",
          "class_now_nontype", "class_now_nontype_ret", "class_module_removed_ret", "arg_class_removed_2",
-         "arg_module_removed_name_prefix"]
+         "arg_module_removed_name_prefix", "dunder_removed", "dunder_removed_2"]
 
 _W = {}
 
@@ -197,7 +203,8 @@ def run_case(case):
             rows.append(r)
             dk.append("module_removed" if removed else k)
     good = [] if removed else [r for r, k in zip(rows, dk) if k in DECODABLE]
-    argv = (["-v"] if case["verbose"] else []) + [case["cmd"], mod]
+    cmdv = {"stub": ["stub"], "apply": ["apply"], "stub_diff": ["stub", "--diff"]}[case["cmd"]]
+    argv = (["-v"] if case["verbose"] else []) + cmdv + [mod]
     db1, db2 = os.path.join(w["dir"], mod + ".db"), os.path.join(w["dir"], mod + "_good.db")
     try:
         make_store(db1, rows)
@@ -210,12 +217,15 @@ def run_case(case):
             with open(path, "w") as fh:
                 fh.write(MOD_SRC)
             sys.modules.pop(mod, None)
-        rc2, crashed2, out2, err2 = cli_run([case["cmd"], mod], db2)
+        rc2, crashed2, out2, err2 = cli_run(cmdv + [mod], db2)
         applied2 = None
         if case["cmd"] == "apply" and not removed:
             with open(path) as fh:
                 applied2 = fh.read()
-        if case["cmd"] == "stub":
+        if case["cmd"] == "stub_diff":
+            same = out == out2
+            stub_present = bool(out.strip()) or not re.search(r"(?i)no traces", err)      # an empty diff is a produced (empty) diff
+        elif case["cmd"] == "stub":
             a1, a2 = stubmodel.abs_stub(out), stubmodel.abs_stub(out2)
             for a in (a1, a2):
                 a.pop("_ev", None)
@@ -224,10 +234,11 @@ def run_case(case):
         else:
             same = applied == applied2 and out == out2
             stub_present = bool(out.strip())
-        m = re.search(r"(\d+) traces failed to decode", err)
+        # wording-tolerant: "<n> trace(s) failed to decode ..." in any capitalisation / number
+        m = re.search(r"(?i)(\d+)\s+traces?\b[^\n]*?\bfail\w*\s+to\s+decode", err)
         rec = {"tid": case["tid"], "cmd": case["cmd"], "verbose": case["verbose"], "kinds": dk, "rc": rc if rc is not None else 0,
                "crashed": crashed, "same": bool(same), "stub_present": stub_present, "count": int(m.group(1)) if m else -1,
-               "warnings": err.count("WARNING: Failed decoding trace"), "no_traces_msg": "No traces found" in err,
+               "warnings": len(re.findall(r"(?im)^.*\bfail\w*\s+decoding\s+trace", err)), "no_traces_msg": bool(re.search(r"(?i)no traces", err)),
                "stderr": err[-300:], "reference_run_failed": crashed2 != "NONE" or rc2 != 0}
         return rec
     finally:
@@ -279,6 +290,9 @@ def gen_cases(tier, seed):
         [[rng.choice(KINDS) for _ in range(rng.randint(4, 8))] for _ in range(200 if tier == "quick" else 5000)],
         cmds=("stub", "apply"), verb=(False,))
     add("only stale rows (nothing decodable)", [rng.sample(stale, rng.randint(1, 4)) for _ in range(40)], cmds=("stub", "apply"))
+    add("`stub --diff`: every single kind, stale rows among valid ones, only stale rows",
+        [[k] for k in KINDS] + [[rng.choice(valid), s, rng.choice(valid)] for s in stale]
+        + [rng.sample(stale, rng.randint(1, 3)) for _ in range(12)], cmds=("stub_diff",))
     n0 = len(cases)
     for ks in ([["valid"], ["valid", "valid2"]]):
         for cmd in ("stub", "apply"):
